@@ -2,7 +2,7 @@
    Statements only (copied from the lemma libraries); every proof is a bare
    `exact`; see the cited files in coq/proofs for the proofs. *)
 From Coq Require Import List NArith ZArith Bool Arith Sorting.Sorted Sorting.Permutation.
-From D2P Require Import Str Err Xml TableTypes Tables Fmt Bullets Merge Collector Walk ShapeFacts TokFacts FrameFacts BulletsFacts LineageFacts Predicates SeqFacts Iter Output Paths Package Content Utilities UtilFacts PyVal Source SourceBase SourceIter SourcePred SourceFmt.
+From D2P Require Import Str Err Xml TableTypes Tables Fmt Bullets Merge Collector Walk ShapeFacts TokFacts FrameFacts BulletsFacts LineageFacts Predicates SeqFacts Iter Output Paths Package Content Utilities UtilFacts PyVal Source SourceBase SourceIter SourcePred SourceFmt PyHeap SourceHeap SourceHeapRuns SourceCaret SourceCaret2 SourceFresh SourceRuns SourceParas.
 Import ListNotations.
 
 (* for EVERY table written as tbl/tr/tc/p directly nested (any number of rows, cells, paragraphs, any merged cells, any inline content), walked from any reachable state in any part: every paragraph it contributes reports the lineage (tbl, tr, tc, p) - or is the empty fill paragraph of a blanked merged position *)
@@ -204,3 +204,47 @@ Theorem C05_source_get_pStyle :
   S_get_pStyle ext (enc_fel (AE e ks)) = lift_str (get_pStyle e ks).
 Proof. exact src_get_pStyle. Qed.
 Print Assumptions C05_source_get_pStyle.
+
+(* SOURCE TIE (heap embedding): DepthCollector.commence_paragraph as translated from the source text moves the caret to depth 4 (model's set_caret), allocates a NEW Par object holding the element and the lineage AS IT IS AFTER set_caret (the lineage every record reports: C05), gives it a new list with the queued runs, empties the queue, pushes the paragraph on _open_pars and returns it; the represented collector state is the model's commence_paragraph state *)
+Theorem C05_source_commence_paragraph :
+  forall (leaf_of : pv -> option par) (epf : pv -> pv -> hm pv) (eps : pv -> hm pv),
+  forall h self s s1 name fuel sa c fs rb brs bs op qa ql fmt,
+    rep leaf_of h self = Some (core_of s) -> (c_depth s <= 4)%nat -> (8 <= fuel)%nat ->
+    set_caret (Some 4%nat) name s = Ok s1 ->
+    self = VRef sa -> h_get sa h = Some (HObj c fs) ->
+    field_get f_branches fs = Some (VRef rb) -> h_get rb h = Some (HList brs) -> refs_of brs = Some bs ->
+    field_get f_open_pars fs = Some (VRef op) ->
+    field_get n_queued fs = Some (VRef qa) -> h_get qa h = Some (HList ql) -> ~ In qa (sa :: rb :: op :: bs) ->
+    rd_fmt h self = Some fmt ->
+    ext_fmt epf -> ext_sty eps ->
+    exists h' pa,
+      S_H_commence_paragraph epf eps fuel self (enc_elem name) h = HOk (VRef pa) h'
+      /\ (length h <= pa)%nat
+      /\ (forall p, leaf_of (VRef pa) = Some p ->
+            rep leaf_of h' self
+            = Some {| k_depth := c_depth s1; k_lineage := c_lineage s1; k_tree := c_tree s1;
+                      k_open := p :: c_open s1 |})
+      /\ (exists pfs ra lin,
+            h_get pa h' = Some (HObj n_Par pfs)
+            /\ field_get n_elem pfs = Some (enc_elem name)
+            /\ field_get n_lineage pfs = Some lin /\ dec_lineage lin = Some (c_lineage s1)
+            /\ field_get n_runs pfs = Some (VRef ra) /\ (length h <= ra)%nat
+            /\ h_get ra h' = Some (HList ql))
+      /\ (exists c' fs' qa', h_get sa h' = Some (HObj c' fs')
+            /\ field_get n_queued fs' = Some (VRef qa') /\ (length h <= qa')%nat
+            /\ h_get qa' h' = Some (HList [])).
+Proof. exact src_commence_paragraph. Qed.
+Print Assumptions C05_source_commence_paragraph.
+
+(* SOURCE TIE: FRAME of set_caret - among the cells that existed it writes only the collector object (fields _lineage and _rightmost_branches), the branch stack and the branches: no paragraph record, run or queued run is touched by moving the caret *)
+Theorem C05_source_set_caret_frame :
+  forall (leaf_of : pv -> option par),
+  forall h self s d name fuel sa c fs rb brs bs v h1,
+    rep leaf_of h self = Some (core_of s) -> (c_depth s <= 4)%nat -> (8 <= fuel)%nat ->
+    match d with Some n => (1 <= n <= 4)%nat | None => True end ->
+    self = VRef sa -> h_get sa h = Some (HObj c fs) ->
+    field_get f_branches fs = Some (VRef rb) -> h_get rb h = Some (HList brs) -> refs_of brs = Some bs ->
+    S_H_set_caret fuel self (enc_depth_arg d) (enc_elem name) h = HOk v h1 ->
+    caret_frame h h1 sa rb bs.
+Proof. exact set_caret_frame. Qed.
+Print Assumptions C05_source_set_caret_frame.
